@@ -462,7 +462,11 @@ Definition pool_release (p : pool) (ra : ralloc) : res pool :=
     against the pool before / after: replaying the returned AllocationIndex list as elementary
     "take one index" steps on the pool before the claim must give exactly the pool after it, whole
     indices come first and at most one fractional index last, and the amounts add up.  A claim the
-    check rejects makes the step [Disabled]; the theorems hold for every accepted claim. *)
+    check rejects makes the step [Disabled]; the theorems hold for every accepted claim.
+    The check is PROVED transparent on well-formed pools (HQ.Alloc.Complete / CompleteTight / CompleteAll:
+    whatever take_indices, take_fraction_index_or_split, the scatter loop + sort, the compact loop + swap and
+    claim_all_from_groups compute passes it), so it never rejects a step of the modelled code; it documents
+    what every claim guarantees and is the interface the invariant proofs use. *)
 
 Fixpoint removeN (x : N) (l : list N) : list N :=
   match l with [] => [] | y :: l' => if y =? x then l' else y :: removeN x l' end.
